@@ -155,7 +155,7 @@ func TestC15(t *testing.T) {
 		if sc.Bound2 || (heavy && shard != 0) {
 			continue
 		}
-		if i < 3 && shard == 0 {
+		if cov.scenarios <= 2 && shard < 2 {
 			run.Sample(map[string]any{"scenario": sc.Replay(), "explored": fmt.Sprintf("%d executions, bound %d, canceller thread", e.Execs, b)})
 		}
 		// (ii) every failing storage-call position x {transient, persistent}, base schedule (+ bound 1 when thorough)
